@@ -71,6 +71,21 @@ def feed_tables():
         tot = sum(cnt)
         frac[row[0].strip()] = [c / tot if tot else 0.0 for c in cnt]
     _FEED['groups'] = frac
+    # critical constants of ChemData.csv in SI, with the conversion factors written out here (g/mol, psia, deg F): what
+    # C15 proves about the package's loader is not assumed
+    rows = list(csv.reader(open(os.path.join(d, 'ChemData.csv'), encoding='utf-8-sig')))
+    head, units = [h.strip() for h in rows[0]], [u.strip() for u in rows[1]]
+    col = {h: i for i, h in enumerate(head)}
+    assert (units[col['M']], units[col['Pc']], units[col['Tc']], units[col['Vc']], units[col['omega']]) == \
+        ('(g/mol)', '(psia)', '(deg F)', '(m^3/mol)', '(--)'), 'ChemData.csv units changed: update the factors in feed_tables'
+    crit = {}
+    for row in rows[2:]:
+        if not row or not row[0].strip():
+            continue
+        crit[row[0].strip()] = {'M': float(row[col['M']]) * 1e-3, 'Pc': float(row[col['Pc']]) * 6894.76,
+                                'Tc': (float(row[col['Tc']]) - 32.) * 5. / 9. + 273.15, 'Vc': float(row[col['Vc']]),
+                                'omega': float(row[col['omega']])}
+    _FEED['crit'] = crit
     for nm in ('Aij', 'Bij'):
         _FEED[nm] = [[float(x) * 1e6 for x in row] for row in csv.reader(open(os.path.join(d, nm + '.csv'))) if row]
     return _FEED
@@ -144,6 +159,7 @@ def run(ctx, lean_ok):
     lines, recs = [], []
     worst_res = 0.0
     nfeed = 0
+    ncrit = 0
     nfd = {'dlnphi_dlnP': 0, 'gibbs_duhem': 0, 'phi_to_one': 0, 'skipped_discontinuous': 0}
     def items():
         # every generated case, and after a quarter of them a FOLLOW-UP on the same FluidMixture object that shares all but one
@@ -194,8 +210,17 @@ def run(ctx, lean_ok):
         e = mixgen.eos_args(fm)
         # "that mixture's" cubic: the object layer must hand the library the constants of the distributed data.  With
         # group-contribution coefficients these are the group fractions of each compound and the two interaction tables
+        ft = feed_tables()
+        if not d['peneloux']:     # with a user volume shift mixgen hands over user_data built from the package's own dictionaries
+            for att, key, rt in (('M', 'M', 1e-12), ('Pc', 'Pc', 1e-6), ('Tc', 'Tc', 1e-9), ('omega', 'omega', 1e-12)):
+                want_c = np.array([ft['crit'][c][key] for c in comp])
+                got_c = np.asarray(getattr(fm, att), dtype=float)
+                if got_c.shape != want_c.shape or not np.allclose(got_c, want_c, rtol=rt, atol=0):
+                    ctx.violation('object-feeds-wrong-constants:' + att,
+                                  'FluidMixture hands the library critical constants that are not those of ChemData.csv',
+                                  {'composition': comp, 'attribute': att, 'object': got_c.tolist(), 'file_SI': want_c.tolist()})
+            ncrit += 1
         if d['delta_mode'] == 'groups':
-            ft = feed_tables()
             want = np.array([ft['groups'].get(c, [0.0] * 15) for c in comp])
             got = np.asarray(fm.delta_groups, dtype=float)
             ok_g = got.shape == want.shape and bool(np.allclose(got, want, rtol=1e-12, atol=0))
@@ -359,7 +384,7 @@ def run(ctx, lean_ok):
                nfd['dlnphi_dlnP'] >= 50 and nfd['gibbs_duhem'] >= 20 and nfd['phi_to_one'] >= 30)
     ctx.notes.append('worst exact relative residual of a reported root: %.3g' % worst_res)
     ctx.notes.append('finite-difference tests run (labelled tests, not theorems): %r' % nfd)
-    ctx.oblige('coverage floor: group-contribution mixtures whose object-layer feed was compared with the distributed files (%d)' % nfeed, nfeed >= 40)
+    ctx.oblige('coverage floor: group-contribution mixtures whose object-layer feed was compared with the distributed files (%d; critical constants of %d mixtures)' % (nfeed, ncrit), nfeed >= 40 and ncrit >= 100)
 
     out = run_driver(ctx, 'C01', lines) if lean_ok else None
     if out is not None:
